@@ -1186,6 +1186,10 @@ func checkLazy(c LazyCase, s *rt.Section) (f *rt.Failure, compiled bool, gated [
 	if h := closedGateHit(code, c.How, c.Cfg); h != nil {
 		return gateFailure(s, c, c.Cfg, h, code, "body compiled at call time ("+c.How+")"), true, gated
 	}
+	if c.FirstFlags != nil {
+		// what the first use defined while other switches were in force (a function, say) stays what it was defined as
+		return nil, true, gated
+	}
 	if h, hc := stateBodiesHit(vm, c.Cfg); h != nil {
 		return gateFailure(s, c, c.Cfg, h, hc, "value left by the evaluation"), true, gated
 	}
@@ -1397,6 +1401,9 @@ func TestProp(t *testing.T) {
 		}
 	})
 
+	run.Enum("readexpr", "a custom dice syntax R(<term>) whose stream parser reads the operand with ReadExpr and whose handler evaluates it, under each of the 128 settings of the seven switches, for every gated term (WoD/CoC/Fate/DC terms, default-sides dice, bitwise operators, template holes holding if/func/while): when (<term>) is refused or not consumed on a plain VM of the configuration, R(<term>) is too, and when both evaluate (max mode, same seed) they agree; non-trivial = the term's gate is closed; distinct by (switches, term)",
+		func(s *rt.Section) { enumReadExpr(s, run) })
+
 	run.Check("history", 2400, 30000,
 		"one VM, 1..5 evaluations (Run / Parse / RunExpr; before one step in four the host writes a new set of the seven switches into the live VM's Config, and half of those steps evaluate the previous text again byte for byte with nothing in between: the switches in force when a text is compiled decide) of texts with `// #EnableDice <family> true|false` macros (spacing variants, unknown family names, the GUIDE's non-macro spelling) placed first, between statements, inside function bodies, template holes, blocks, before computed reads, switched on then off, and of macro-free texts (family uses, calls of functions defined under a macro, spellings, generated programs). After every step: Config equals its initial value field by field; 15 macro-free probes (2a5 a5 2a5k6m9 b2 p f 2c5 2c5m7, if/func/while, 3d d, 1|2 1&2) parsed on the same VM compile to exactly the gated instructions the configuration prescribes (none when the gate is closed); every macro-free step's own listing respects the closed gates; at the end a fresh VM passes the probes too. Non-trivial = at least one step has a macro and a later step (or probe) is macro-free; distinct by configuration + steps",
 		func(t *rapid.T, s *rt.Section) {
@@ -1516,6 +1523,13 @@ func TestReplay(t *testing.T) {
 			}
 			f, _, _ := checkEnumCase(c, s)
 			return f
+		},
+		"readexpr": func(b []byte, s *rt.Section) *rt.Failure {
+			var c RXCase
+			if err := json.Unmarshal(b, &c); err != nil {
+				return s.NewFailure("replay", "replay:bad-case", nil, err.Error(), "")
+			}
+			return checkReadExpr(c, s)
 		},
 		"history": func(b []byte, s *rt.Section) *rt.Failure {
 			var c HistCase
